@@ -44,6 +44,8 @@ func lookupScenarios() []*scen {
 		{Name: "S4 poll that expires a cached name || Secret(name) then read", Declared: []string{"d"}, Expiry: 100 * time.Second, ClockAdd: 0,
 			Initial: map[string]cInit{"d": {Ver: 1, LastAccess: -5}, "plum": {Ver: 1, LastAccess: -1000}, "pear": {Ver: 1, LastAccess: 0}},
 			Threads: map[string][]string{"poller": {"refresh"}, "late": {"secret:plum", "read:plum", "read:plum"}, "late2": {"secret:pear", "read:pear"}}},
+		{Name: "S7 NewUpdater(new name) || LookupSecret(same name) || poll with server change", Declared: []string{"d"},
+			Threads: map[string][]string{"w": {"upd:u", "updget:u"}, "l": {"lookup:u", "read:u"}, "p": {"refresh"}}, Events: []string{"srv-put:u"}},
 		{Name: "S6 two lookups of the same new name || poll", Declared: []string{"d"},
 			Threads: map[string][]string{"l1": {"lookup:u", "read:u"}, "l2": {"lookup:u", "read:u"}, "p": {"refresh"}}, Events: []string{"srv-put:u"}},
 	}
